@@ -631,7 +631,12 @@ def custom_example(ctx):
             return
         if data != before:
             ctx.violation('building examples/coin_env.yaml modified the input data', {'file': 'examples/coin_env.yaml'})
-        import coin_env as ce
+        try:
+            import coin_env as ce
+            ce.Coin, ce.coin_maze, ce.collect_coin_transition, ce.collect_coin_reward, ce.no_more_coins
+        except (ImportError, AttributeError):
+            ctx.count('custom example', 'the example module no longer has the names the hand assembly uses: comparison skipped')
+            return
         acts = [envs.ACTS[envs.ANAMES.index(n)] for n in before['action_space']]
         a = before['observation_function']['area']
         area = Area(tuple(a[0]), tuple(a[1]))
